@@ -29,6 +29,9 @@ type Config struct {
 
 	RegisterReplyKind byte // 'X' (AGWPE, Direwolf) or 'x' (QtSoundModem); 0 = 'X'
 	Dial              DialPolicy
+	// DialGreeting: data frames the TNC sends directly behind its 'C' reply to a connect request (a
+	// remote station that greets at once): queued back to back with the reply.
+	DialGreeting [][]byte
 
 	// Deliberately malformed replies (-1 = well formed). The value is the number of data bytes sent.
 	ShortX, ShortG, ShortR int
@@ -319,6 +322,11 @@ func (s *Sim) handle(f Frame) {
 		case DialAccept:
 			s.conns[key] = c
 			s.reply(Frame{Kind: 'C', Port: f.Port, From: f.To, To: f.From, Data: []byte("*** CONNECTED With Station " + f.To + "\r\x00")})
+			if f.From == s.cfg.MyCall && f.Port == s.cfg.Port {
+				for _, p := range s.cfg.DialGreeting {
+					s.sendDataLocked(f.To, p)
+				}
+			}
 		case DialRefuse:
 			s.reply(Frame{Kind: 'd', Port: f.Port, From: f.To, To: f.From, Data: []byte("*** DISCONNECTED RETRYOUT With " + f.To + "\r\x00")})
 		case DialBadText:
